@@ -538,6 +538,31 @@ def main(ctx):
                  {'stream': 'terms', 'case': cases[coq_idx[b]], 'impl': res[coq_idx[b]]})
     ctx.cov['traces_validated_against_impl'] = len(coq_cases)
     hist['terms_odd_parity'] = nodd
+    # two-site handler CouplingTerms.coupling_term_handle_JW  vs  Model/JW.v coupling_term_handle_JW (theorem T12_coupling_JW)
+    cpl_cases, cpl_idx = [], []
+    for idx, (case, r) in enumerate(zip(cases, res)):
+        if r is None or 'coupling' not in r or len(r.get('combined', [])) != 2 or len(r.get('comb_flags', [])) != 2:
+            continue
+        cp = r['coupling']
+        (op_i, i), (op_j, j) = r['combined']
+        if 'error' in cp:
+            outc = None
+        elif (cp['op_j'] != op_j or cp['i'] != i or cp['j'] != j or cp['opstr'] not in ('JW', 'Id')
+              or cp['op_i'] not in (op_i, op_i + ' JW')):
+            ctx.fail('correspondence', 'output of coupling_term_handle_JW has an unexpected shape: %s' % cp, {'stream': 'terms', 'case': case})
+            continue
+        else:
+            outc = Some((cp['op_i'] != op_i, cp['opstr'] == 'JW'))
+        cpl_cases.append(coq_lit((bool(r['comb_flags'][0]), bool(r['comb_flags'][1]), outc)))
+        cpl_idx.append(idx)
+    if cpl_cases:
+        bad, err = common.coq_failing_indices('cases_c12_cpl', ['Base.Prelude', 'Model.JW', 'Model.JW2'], 'check_coupling_case', cpl_cases)
+        if err:
+            ctx.fail('correspondence', 'model evaluation failed (coupling): ' + err[-600:], None)
+        for b in bad[:5]:
+            ctx.fail('correspondence', 'Model/JW.v and terms.coupling_term_handle_JW disagree',
+                     {'stream': 'terms', 'case': cases[cpl_idx[b]], 'impl': res[cpl_idx[b]]})
+    hist['coupling_handler_cases'] = len(cpl_cases)
     _tick(ctx, 'terms')
 
     # ------------------------------------------------------------------ MPO: dense anticommutators
